@@ -173,7 +173,13 @@ Definition guard_op (σ : store V) (o : op) : gclass :=
   | OAt t _ | OSetAt t _ _ => on t (fun d => match guard_read d with GFlagUnsound => GOk | g => g end)
   | OMaterialize t _ | OClone t => on t guard_read
   | OT t axes => on t (fun d => guard_T d axes)
-  | OTranspose t => on t guard_transpose
+  | OTranspose t =>
+    on t (fun d => match guard_transpose d with
+                   | GOk =>
+                     if is_some (d_old d)
+                        && (1 <? Z.of_nat (length (filter (fun x => Nat.eqb (d_buf x) (d_buf d)) (tens V σ))))
+                     then GAliasedStorage else GOk
+                   | g => g end)
   | OReshape t _ _ => on t guard_transpose
   | OCopy dt st => on dt (fun d => on st (fun s => guard_copy d s))
   | OSafeT t axes => on t (fun d => guard_safeT d axes)
